@@ -184,6 +184,29 @@ SPECS = [
     let board = match board::BoardState::from_fen(&fen) {""",
      """    let fen = matches.value_of("fen").unwrap_or(board::DEFAULT_FEN_STRING);
     let board = match board::BoardState::from_fen(fen) {""", "R15.5", "--fen with non-UTF-8 bytes panics in clap before from_fen sees it"),
+    ("C17", "revert-fix12-stdin-utf8", UC,
+     """    // read the line as bytes, a line that is not valid UTF-8 is garbage to be ignored like any other
+    let mut raw = Vec::new();
+    if stdin.lock().read_until(b'\\n', &mut raw).unwrap() == 0 {
+        // end of input, the GUI is gone so treat it like quit
+        info!("ENGINE << end of input");
+        process::exit(0);
+    }
+    let mut buffer = String::from_utf8_lossy(&raw).into_owned();
+""",
+     """    let mut buffer = String::new();
+    if stdin.lock().read_line(&mut buffer).unwrap() == 0 {
+        // end of input, the GUI is gone so treat it like quit
+        info!("ENGINE << end of input");
+        process::exit(0);
+    }
+""", "R17.3", "a line that is not valid UTF-8 panics the engine again"),
+    ("C17", "lossy-replaced-by-strict-decode", UC,
+     """    let mut buffer = String::from_utf8_lossy(&raw).into_owned();""",
+     """    let mut buffer = String::from_utf8(raw).unwrap();""", "R17.3", "strict decoding unwrapped: garbage bytes terminate the engine"),
+    ("C17", "read-error-returns-empty-line", UC,
+     """    if stdin.lock().read_until(b'\\n', &mut raw).unwrap() == 0 {""",
+     """    if stdin.lock().read_until(b'\\n', &mut raw).unwrap_or(1) == 0 {""", "R17.3", "a failed read is handed back as an (empty) line: a persistent error spins the loop"),
     # ---------------- C08
     ("C08", "revert-fix9", UC,
      """        match rx.try_recv() {
@@ -255,12 +278,12 @@ SPECS = [
      "R15.1", "revert of fix 6 (rank digit unwrapped)"),
     # ---------------- C17
     ("C17", "revert-fix8", UC,
-     """    if stdin.lock().read_line(&mut buffer).unwrap() == 0 {
+     """    if stdin.lock().read_until(b'\\n', &mut raw).unwrap() == 0 {
         // end of input, the GUI is gone so treat it like quit
         info!("ENGINE << end of input");
         process::exit(0);
     }""",
-     """    stdin.lock().read_line(&mut buffer).unwrap();""",
+     """    stdin.lock().read_until(b'\\n', &mut raw).unwrap();""",
      "R17.3", "EOF ignored"),
     ("C17", "eof-only-logged", UC,
      """        info!("ENGINE << end of input");
